@@ -1,14 +1,187 @@
-(* C03 -- placeholder *)
-From Coq Require Import ZArith List String Bool.
+(* C03 -- the SMILES reader builds the molecule the text denotes and rejects everything else.
+   Statements only; proofs in Proofs.TokenizeProofs / ParserProofs / ReaderProofs.  The models (Model.Tokenize, Parser,
+   Reader) mirror tokenize.py, parser.py, smiles.py:smiles(), _mapping.py and the structural part of _convert.py; the
+   dictionaries, character classes and regular-expression texts come from Gen.TokenTables / Gen.Elements, regenerated
+   from the source on every run. *)
+From Coq Require Import ZArith List String Ascii Bool.
 From Model Require Import PyBase Tokenize Parser Reader.
 From Gen Require Import TokenTables.
-From Proofs Require Import TokenizeProofs.
+From Proofs Require Import TokenizeProofs ParserProofs ReaderProofs.
 Import ListNotations.
 Open Scope Z_scope.
 
+(* the hand-written matchers are for exactly these pattern texts *)
 Theorem C03_regex_sources_pinned :
   atom_re_src = "([1-9][0-9]{0,2})?([A-IK-PR-Zacnopsbt][a-ik-pr-vy]?)(@@|@)?(H[1-4]?)?([+-][1-4+-]?)?(:[0-9]{1,4})?"%string /\
   cx_fragments_src = "f:(?:[0-9]+(?:\.[0-9]+)+)(?:,(?:[0-9]+(?:\.[0-9]+)+))*"%string /\
   cx_radicals_src = "\^[1-7]:[0-9]+(?:,[0-9]+)*"%string.
 Proof. exact regex_sources_pinned. Qed.
 Print Assumptions C03_regex_sources_pinned.
+
+(* CENTRE-PIECE.  For EVERY text, smiles(text, ignore=.., remap=..) returns a molecule / reaction or raises a
+   ValueError-class exception (ValueError incl. MappingError / EmptyReaction, IncorrectSmiles, IncorrectSmarts):
+   never IndexError, KeyError, TypeError, AttributeError.   total r := match r with Ok _ => True | Err e => vee e = true end *)
+Theorem C03_reader_total : forall (ignore remap : bool) (s : string), total (read ignore remap s).
+Proof. exact reader_total. Qed.
+Print Assumptions C03_reader_total.
+
+Theorem C03_reader_total_is_ve : forall (ignore remap : bool) (s : string) (e : pyexn),
+  read ignore remap s = Err e -> is_ve e = true.
+Proof. exact reader_total_is_ve. Qed.
+Print Assumptions C03_reader_total_is_ve.
+
+(* non-vacuity of reader_total: accepted molecules / reactions and one rejected text per failure class *)
+Theorem C03_reader_examples :
+  (exists m, read true false "C1CC1[13CH3:7] |^1:0|" = Ok (RMol m)) /\
+  (exists a b c, read true false "C.[Na+]>O>CC.[Cl-] |f:0.1|" = Ok (RRxn a b c)) /\
+  read true false "C(" = Err IncorrectSmiles /\ read true false "C-;@C" = Err IncorrectSmiles /\
+  read true false ";" = Err IncorrectSmarts /\ read true false "C!~C" = Err IncorrectSmarts /\
+  read true false "C |^1:5|" = Err IncorrectSmiles /\ read true false "C11" = Err ValueError /\
+  read true false ">>" = Err ValueError /\ read false false "[CH3:1][CH3:1]" = Err ValueError.
+Proof. exact reader_examples. Qed.
+Print Assumptions C03_reader_examples.
+
+(* smiles_tokenize: total; atoms carry an atom dictionary, bonds / closures an int, direction marks a bool, no SMARTS
+   token survives; a non-empty text never gives an empty token list *)
+Theorem C03_tokenize_total : forall s : string,
+  match tokenize s with
+  | Ok l => forallb swfb l = true /\ (s <> ""%string -> l <> [])
+  | Err e => vee e = true
+  end.
+Proof. exact tokenize_good. Qed.
+Print Assumptions C03_tokenize_total.
+
+Theorem C03_tokenize_example :
+  exists l, tokenize "[13CH3:7]C(=O)/C=C\c1ccc%10.Cl%10" = Ok l /\ List.length l = 20%nat.
+Proof. exact tokenize_example. Qed.
+Print Assumptions C03_tokenize_example.
+
+(* parser on any non-empty list of such tokens: a record whose bonds join existing atoms with int values, or IncorrectSmiles *)
+Theorem C03_parser_total : forall (ts : list token) (strong : bool),
+  forallb swfb ts = true -> ts <> [] -> GoodR parsed_wf (parse ts strong).
+Proof. exact parse_good. Qed.
+Print Assumptions C03_parser_total.
+
+(* postprocess_parsed_molecule: pairwise distinct numbers, one per atom; the first atom carrying a map keeps it; every
+   number is the atom's own map or larger than every map in the molecule *)
+Theorem C03_mapping_numbers : forall (ignore : bool) (maps out : list Z),
+  pp_molecule false ignore maps = Ok out ->
+  NoDup out /\ List.length out = List.length maps /\
+  (forall i m, nth_error maps i = Some m -> m <> 0 -> ~ In m (firstn i maps) -> nth_error out i = Some m) /\
+  (forall i m x, nth_error maps i = Some m -> nth_error out i = Some x -> x = m \/ forall m', In m' maps -> m' < x).
+Proof. exact mapping_numbers. Qed.
+Print Assumptions C03_mapping_numbers.
+
+Theorem C03_mapping_numbers_example :
+  pp_molecule false true [0; 5; 0; 5; 2] = Ok [6; 5; 7; 8; 2] /\ pp_molecule false false [0; 5; 0; 5; 2] = Err ValueError.
+Proof. exact mapping_numbers_example. Qed.
+Print Assumptions C03_mapping_numbers_example.
+
+(* ---- one theorem per `raise` of parser(): the guard fires exactly on the stated class of (state, token) *)
+Theorem C03_reject_not_atom_started : forall ts,
+  guard ts = Ok tt <->
+  (exists t v r, ts = (t, v) :: r /\ t <> 2 /\ zmem t [0; 8] = true) \/
+  (exists v t2 v2 r, ts = (2, v) :: (t2, v2) :: r /\ zmem t2 [0; 8] = true).
+Proof. exact reject_not_atom_started. Qed.
+Print Assumptions C03_reject_not_atom_started.
+
+Theorem C03_reject_bond_before_branch : forall strong s v,
+  step strong s (2, v) = Err IncorrectSmiles <-> exists pt pv, ps_prev s = Some (pt, pv) /\ pt <> 4.
+Proof. exact reject_bond_before_branch. Qed.
+Print Assumptions C03_reject_bond_before_branch.
+
+Theorem C03_reject_close_branch : forall strong s v,
+  step strong s (3, v) = Err IncorrectSmiles <-> ps_prev s <> None \/ ps_stack s = [].
+Proof. exact reject_close_branch. Qed.
+Print Assumptions C03_reject_close_branch.
+
+Theorem C03_reject_bond_token : forall strong s ty v, zmem ty [1; 4; 9; 10; 12] = true ->
+  (step strong s (ty, v) = Err IncorrectSmiles <-> ps_prev s <> None \/ ps_atoms s = []) /\
+  (forall s', step strong s (ty, v) = Ok s' -> ps_prev s' = Some (ty, v) /\ ps_stack s' = ps_stack s /\ ps_cycles s' = ps_cycles s).
+Proof. exact reject_bond_token. Qed.
+Print Assumptions C03_reject_bond_token.
+
+Theorem C03_reject_dot_closure : forall strong s k pv, ps_prev s = Some (4, pv) -> step strong s (6, PInt k) = Err IncorrectSmiles.
+Proof. exact reject_dot_closure. Qed.
+Print Assumptions C03_reject_dot_closure.
+
+Theorem C03_reject_closure_bond_strong : forall s a,
+  (forall obt obv, ps_prev s = None -> obt <> 9 -> close_bond true s a (Some (obt, obv)) = Err IncorrectSmiles) /\
+  (forall bt b, ps_prev s = Some (bt, b) -> bt <> 9 -> close_bond true s a None = Err IncorrectSmiles).
+Proof. exact reject_closure_bond_strong_both. Qed.
+Print Assumptions C03_reject_closure_bond_strong.
+
+Theorem C03_reject_closure_bond_mismatch : forall strong s a o1 o2,
+  ps_prev s = Some (1, PInt o2) -> o1 <> o2 -> close_bond strong s a (Some (1, PInt o1)) = Err IncorrectSmiles.
+Proof. exact reject_closure_bond_mismatch. Qed.
+Print Assumptions C03_reject_closure_bond_mismatch.
+
+Theorem C03_reject_closure_direction_vs_bond : forall strong s a o b, o <> 1 ->
+  (ps_prev s = Some (9, PBool b) -> close_bond strong s a (Some (1, PInt o)) = Err IncorrectSmiles) /\
+  (ps_prev s = Some (1, PInt o) -> close_bond strong s a (Some (9, PBool b)) = Err IncorrectSmiles).
+Proof. exact reject_closure_direction_vs_bond. Qed.
+Print Assumptions C03_reject_closure_direction_vs_bond.
+
+Theorem C03_reject_at_end : forall s,
+  finish s = Err IncorrectSmiles <-> ps_stack s <> [] \/ ps_cycles s <> [] \/ ps_prev s <> None.
+Proof. exact reject_at_end. Qed.
+Print Assumptions C03_reject_at_end.
+
+(* ---- input-level rejection, for ALL token lists: what is accepted is balanced, closes every ring number, has no two
+   adjacent bond symbols and does not end with one *)
+Theorem C03_reject_unbalanced : forall ts strong p, parse ts strong = Ok p -> depth_run 0 ts = Some 0%nat.
+Proof. exact reject_unbalanced. Qed.
+Print Assumptions C03_reject_unbalanced.
+
+Theorem C03_reject_open_closure : forall ts strong p, parse ts strong = Ok p -> forall k, closure_parity k ts = false.
+Proof. exact reject_open_closure. Qed.
+Print Assumptions C03_reject_open_closure.
+
+Theorem C03_reject_dangling_bond : forall ts ty v strong p,
+  parse (ts ++ [(ty, v)]) strong = Ok p -> zmem ty [1; 4; 9; 10; 12] = false.
+Proof. exact reject_dangling_bond. Qed.
+Print Assumptions C03_reject_dangling_bond.
+
+Theorem C03_reject_two_bonds : forall a t1 v1 t2 v2 b strong p,
+  parse (a ++ (t1, v1) :: (t2, v2) :: b) strong = Ok p -> zmem t1 [1; 4; 9; 10; 12] && zmem t2 [1; 4; 9; 10; 12] = false.
+Proof. exact reject_two_bonds. Qed.
+Print Assumptions C03_reject_two_bonds.
+
+Theorem C03_reject_examples :
+  (exists p, parse [(0, PAtom (simple_atom "C")); (2, PNone); (1, PInt 2); (0, PAtom (simple_atom "O")); (3, PNone); (0, PAtom (simple_atom "C"))] true = Ok p) /\
+  parse [(0, PAtom (simple_atom "C")); (2, PNone); (0, PAtom (simple_atom "O"))] true = Err IncorrectSmiles /\
+  parse [(0, PAtom (simple_atom "C")); (3, PNone)] true = Err IncorrectSmiles /\
+  parse [(0, PAtom (simple_atom "C")); (1, PInt 2)] true = Err IncorrectSmiles /\
+  parse [(0, PAtom (simple_atom "C")); (1, PInt 2); (1, PInt 1); (0, PAtom (simple_atom "C"))] true = Err IncorrectSmiles /\
+  parse [(0, PAtom (simple_atom "C")); (6, PInt 1)] true = Err IncorrectSmiles.
+Proof. exact reject_examples. Qed.
+Print Assumptions C03_reject_examples.
+
+(* ---- implicit bond choice: aromatic (4) iff both atom tokens are aromatic (type 8), else single; explicit symbols as
+   written; the dot joins nothing *)
+Theorem C03_implicit_bond_chain : forall strong s ty a s',
+  ps_atoms s <> [] -> (ps_prev s = None \/ exists b, ps_prev s = Some (9, PBool b)) ->
+  In ty [0; 8] -> step strong s (ty, PAtom a) = Ok s' ->
+  exists tl, type_at s (ps_last s) = Ok tl /\
+             ps_bonds s' = ps_bonds s ++ [(ps_n s, ps_last s, if (ty =? 8) && (tl =? 8) then PInt 4 else PInt 1)].
+Proof. exact implicit_bond_chain. Qed.
+Print Assumptions C03_implicit_bond_chain.
+
+Theorem C03_implicit_bond_closure : forall strong s a ob r,
+  (ps_prev s = None \/ exists b, ps_prev s = Some (9, PBool b)) -> (ob = None \/ exists b, ob = Some (9, PBool b)) ->
+  close_bond strong s a ob = Ok r ->
+  exists tl ta, type_at s (ps_last s) = Ok tl /\ type_at s a = Ok ta /\
+                fst (fst (fst r)) = if (tl =? 8) && (ta =? 8) then PInt 4 else PInt 1.
+Proof. exact implicit_bond_closure. Qed.
+Print Assumptions C03_implicit_bond_closure.
+
+Theorem C03_explicit_bond_chain : forall strong s ty a o s',
+  ps_atoms s <> [] -> ps_prev s = Some (1, PInt o) -> In ty [0; 8] -> step strong s (ty, PAtom a) = Ok s' ->
+  ps_bonds s' = ps_bonds s ++ [(ps_n s, ps_last s, PInt o)].
+Proof. exact explicit_bond_chain. Qed.
+Print Assumptions C03_explicit_bond_chain.
+
+Theorem C03_dot_no_bond : forall strong s ty a pv s',
+  ps_atoms s <> [] -> ps_prev s = Some (4, pv) -> In ty [0; 8] -> step strong s (ty, PAtom a) = Ok s' -> ps_bonds s' = ps_bonds s.
+Proof. exact dot_no_bond. Qed.
+Print Assumptions C03_dot_no_bond.
